@@ -121,6 +121,13 @@ CLAIMED = {
              "vertex parameters/positions, quad meshes, trims, container offsets and OBJ/OFF/STL(ascii, binary) exports are replayed.",
         technique="TLA+ spec (Mesh, MC_C15) model-checked with TLC; code->spec trace validation of every recorded mesh (Trace_C15) + replay",
         design="4 C15"),
+    "C14": dict(
+        text="For shapes with pairwise different sizes and containers of 1..3 shapes the spec gives the abstract content of the JSON, smesh, "
+             "vmesh, txt (1-D/2-D) and csv files (row/column ordering included) and proves the mesh ordering invertible; the replay exports "
+             "with geomdl, tokenises the real file against the abstract file, imports it again and compares degrees, knot vectors, sizes, "
+             "points, weights, sampling density and trim curves.",
+        technique="TLA+ spec (Exchange, MC_C14) model-checked exhaustively with TLC; spec->code replay through real files",
+        design="4 C14"),
 }
 
 PENDING_REASON = "check not built yet (work in progress, see DESIGN.md section 8 build order)"
